@@ -1220,6 +1220,18 @@ func (e *SpecEnv) evalCall(n *ast.CallExpr) *SV {
 			return svBool(False)
 		}
 		return svBool(And(Eq(src, b.V.L[0]), Eq(a.V.Off(), Int(0)), Eq(a.V.Len(), StrLen(src))))
+	case "strofbytes":
+		// strofbytes(s, b): s is the result of the conversion string(b') of a slice b' identical to b
+		a, b := arg(0), arg(1)
+		if a == nil || b == nil || a.V == nil || b.V == nil || !isString(a.V.T) || !isSlice(b.V.T) {
+			e.fail("strofbytes needs a string and a byte slice")
+			return nil
+		}
+		src, ok := e.g.bytes2str[a.V.L[0].id]
+		if !ok {
+			return svBool(False)
+		}
+		return svBool(And(Eq(src.Len(), b.V.Len()), Or(Eq(src.Len(), Int(0)), And(Eq(src.Arr(), b.V.Arr()), Eq(src.Off(), b.V.Off())))))
 	case "samearray":
 		a, b := arg(0), arg(1)
 		if a == nil || b == nil || a.V == nil || b.V == nil || !isSlice(a.V.T) || !isSlice(b.V.T) {
